@@ -245,6 +245,8 @@ class Sim:
         self.incarnations: list[Incarnation] = []
         self._timers: list[asyncio.TimerHandle] = []
         self.abandoned_tasks: list[str] = []
+        self.max_calls = 6000         # handler invocations per run before it is called a runaway and ended (see Recorder.call)
+        self.runaway = False
 
     def _on_loop_error(self, loop: asyncio.AbstractEventLoop, context: dict[str, Any]) -> None:
         self.loop_errors.append({'t': loop.time(), 'message': context.get('message'),
@@ -282,7 +284,7 @@ class Sim:
     async def sleep_until(self, when: float) -> None:
         # NB: always on the loop's microsecond grid: a sub-resolution timer never fires under looptime.
         d = round(when - self.loop.time(), 6)
-        if d > 0:
+        if d > 0 and not self.runaway:
             await asyncio.sleep(d)
 
     async def sleep(self, d: float) -> None:
@@ -309,6 +311,8 @@ class Sim:
         while True:
             now = self.loop.time()
             la = last_activity()
+            if self.runaway:
+                return False
             if now - la >= quiet:
                 return True
             if now >= horizon:
